@@ -131,8 +131,31 @@ func VerifC15NewProxy(parent device.ID) (*Proxy, *Session) {
 		connection: connection{log: s.log}}
 	p.ctx, p.cancel = context.WithCancel(context.Background())
 	s.proxy = &proxyBase{Proxy: p}
+	go p.prune() // the real goroutine that serves p.close (normally started by Proxy.listen)
 	return p, s
 }
+
+// VerifC15ProxyBarrier returns once Proxy.prune has dealt with everything sent to p.close so far: a
+// key nobody has (0) is sent after them; prune takes the requests one by one, so when that one was
+// taken the ones before it are done.
+func VerifC15ProxyBarrier(p *Proxy) {
+	p.close <- 0
+	for i := 0; len(p.close) > 0 && i < 500000; i++ {
+		time.Sleep(10 * time.Microsecond)
+	}
+	p.lock.Lock()
+	p.lock.Unlock()
+}
+
+// VerifC15ProxyStop ends the prune goroutine.
+func VerifC15ProxyStop(p *Proxy) { p.cancel() }
+
+// VerifC15ChanQueued: packets waiting in the send queue of the host of a Channel.
+func (h *VerifC15Chan) Queued() int { return len(h.Host.send) }
+
+// Next is what channelWrite would send next: Session.next(false) of the host (only called with a
+// non-empty queue; with an empty one the real call waits for a wake-up).
+func (h *VerifC15Chan) Next() *com.Packet { return h.Host.next(false) }
 
 func VerifC15ProxyTalk(p *Proxy, a string, n *com.Packet) (*com.Packet, bool, bool, error) {
 	c, ok, err := p.talk(a, n)
